@@ -34,6 +34,7 @@ type Frame struct {
 	top      bool
 	curLockArg ssa.Value
 	ifaceModSet *ModSet
+	curFv    *Val
 }
 
 type edgeIn struct {
